@@ -103,7 +103,11 @@ def hostile(rng, entry, dev, v):
     if entry == "unknown_property":
         return {"xml": wrap(cx, name="NOPE_" + v["name"]), "valid": [], "parser_ok": True}
     if entry == "unknown_element":
-        bad = cx.replace(f'name="{e["name"]}"', 'name="NOPE"')
+        # a name the property does not have - incl. near misses: the name in another case, and the Python attribute under
+        # which the driver's source declares the element (an internal key, not a protocol name)
+        akey = next((k for k, x in v["elements"].items() if x is e), "e0")
+        alt = rng.choice(["NOPE", "NOPE", akey, akey, e["name"].lower() if e["name"].lower() != e["name"] else e["name"] + "_", e["name"] + " "])
+        bad = cx.replace(f'name="{e["name"]}"', f'name="{alt}"')
         return {"xml": wrap(bad), "valid": [], "parser_ok": True}
     if entry == "kind_mismatch":
         other = rng.choice([k for k in ("Text", "Number", "Switch", "BLOB") if k != kind])
